@@ -205,6 +205,10 @@ def opOk (c : Cfg) (st : St) : Op → Bool
   | .ctx _ n sequential _ => (!sequential && decide (c.maxq < n)) ||
       (if sequential || c.single then decide ((activeIds st.hs).length + 1 ≤ limit c)
        else decide ((activeIds st.hs).length + n ≤ limit c))
+  | .keepr _ n fails tries => decide (1 ≤ n) && decide (n ≤ c.maxq) && decide (fails < tries) &&
+      decide ((activeIds st.hs).length + n ≤ limit c) && (!c.nv || nvKeepOk c st n)
+  | .seqr _ _ _ fails tries => decide (fails < tries) &&
+      decide ((activeIds st.hs).length + 1 ≤ limit c)
   | .flush => true
   | .close => true
 
@@ -1193,6 +1197,319 @@ theorem inv_ctx {c : Cfg} {st : St} (hi : Inv c st) {r : Bool} {n : Nat} {sq : B
       show Inv c ⟨releaseLast n (genEnt st n).1.hs, (genEnt st n).1.evs ++ _, none, (genEnt st n).1.unit⟩
       rw [en, hr, i1, i3]; exact key
 
+/-! ### min-fidelity retry loop -/
+
+theorem nvEnt_hs : ∀ (n : Nat) (st st' : St) (ids : List Nat), nvEnt st n = .ok (st', ids) →
+    st'.hs = st.hs ++ ids.map (fun k => (⟨k, true⟩ : Handle)) := by
+  intro n
+  induction n with
+  | zero => intro st st' ids h; simp only [nvEnt] at h; cases h; simp
+  | succ k ih =>
+    intro st st' ids h
+    simp only [nvEnt] at h
+    by_cases hk : k = 0
+    · rw [if_pos hk] at h; cases h; rfl
+    · rw [if_neg hk] at h
+      by_cases hm : k ∈ activeIds st.hs
+      · rw [if_pos hm] at h; cases h
+      · rw [if_neg hm] at h
+        cases hr : nvEnt ⟨st.hs ++ [⟨k, true⟩], st.evs ++ [.alloc k, .use k], some k, st.unit⟩ k with
+        | error e => rw [hr] at h; cases h
+        | ok r =>
+          obtain ⟨st'', ids'⟩ := r
+          rw [hr] at h
+          simp only [Except.ok.injEq, Prod.mk.injEq] at h
+          obtain ⟨h1, h2⟩ := h
+          subst h1 h2
+          rw [ih _ st'' ids' hr]
+          simp
+
+theorem genEnt_hs2 : ∀ (n : Nat) (st : St),
+    (genEnt st n).1.hs = st.hs ++ (genEnt st n).2.map (fun k => (⟨k, true⟩ : Handle)) := by
+  intro n
+  induction n with
+  | zero => intro st; simp [genEnt]
+  | succ k ih =>
+    intro st
+    simp only [genEnt]
+    rw [ih]; simp
+
+theorem run_frees {m : Nat} : ∀ (ids u : List Nat), ids.Nodup → (∀ d ∈ ids, d ∈ u ∧ d < m) →
+    ∃ u', run m u (ids.map Ev.free) = .ok u' ∧ ∀ w, w ∈ u' ↔ (w ∈ u ∧ w ∉ ids) := by
+  intro ids
+  induction ids with
+  | nil => intro u _ _; exact ⟨u, rfl, by simp⟩
+  | cons d t ih =>
+    intro u hn h
+    rw [List.nodup_cons] at hn
+    obtain ⟨hd1, hd2⟩ := h d List.mem_cons_self
+    obtain ⟨u', hu', hm'⟩ := ih (u.filter (· != d)) hn.2 (fun d' hd' => by
+      refine ⟨?_, (h d' (List.mem_cons_of_mem _ hd')).2⟩
+      simp only [List.mem_filter, bne_iff_ne, ne_eq, decide_not, Bool.not_eq_true',
+        decide_eq_false_iff_not]
+      exact ⟨(h d' (List.mem_cons_of_mem _ hd')).1, fun e => hn.1 (e ▸ hd')⟩)
+    refine ⟨u', ?_, ?_⟩
+    · simp only [List.map_cons, run, step_free hd2 hd1]; exact hu'
+    · intro w; rw [hm' w]
+      simp only [List.mem_filter, bne_iff_ne, ne_eq, decide_not, Bool.not_eq_true',
+        decide_eq_false_iff_not, List.mem_cons, not_or]
+      constructor
+      · rintro ⟨⟨h1, h2⟩, h3⟩; exact ⟨h1, h2, h3⟩
+      · rintro ⟨h1, h2, h3⟩; exact ⟨⟨h1, h2⟩, h3⟩
+
+/-- `try until success`: if an attempt takes `P` to `Q` and the clean-up takes `Q` back to `P`,
+then any number of failed attempts followed by a successful one takes `P` to `Q` -/
+theorem run_retry {m : Nat} (P Q : List Nat → Prop) (attempt cleanup : List Ev)
+    (ha : ∀ u, P u → ∃ u', run m u attempt = .ok u' ∧ Q u')
+    (hc : ∀ u, Q u → ∃ u', run m u cleanup = .ok u' ∧ P u') :
+    ∀ (k : Nat) (u : List Nat), P u →
+      ∃ u', run m u ((List.replicate k (attempt ++ cleanup)).flatten ++ attempt) = .ok u' ∧ Q u' := by
+  intro k
+  induction k with
+  | zero => intro u hp; simpa using ha u hp
+  | succ k ih =>
+    intro u hp
+    obtain ⟨u1, h1, q1⟩ := ha u hp
+    obtain ⟨u2, h2, p2⟩ := hc u1 q1
+    obtain ⟨u3, h3, q3⟩ := ih u2 p2
+    refine ⟨u3, ?_, q3⟩
+    simp only [List.replicate_succ, List.flatten_cons, List.append_assoc]
+    exact run_snoc_ok h1 (run_snoc_ok h2 (by simpa using h3))
+
+theorem retryEvs_success {attempt cleanup : List Ev} {fails tries : Nat} (h : fails < tries) :
+    retryEvs attempt cleanup fails tries =
+      (List.replicate fails (attempt ++ cleanup)).flatten ++ attempt := by
+  unfold retryEvs
+  rw [if_pos h, Nat.min_eq_left (Nat.le_of_lt h)]
+
+theorem freeUp_idem {c : Cfg} {st : St} (hi : Inv c st) (hnv : c.nv = true) :
+    freeUp c (freeUp c st) = freeUp c st := by
+  obtain ⟨j1, j2, _, _⟩ := inv_freeUp hi hnv
+  rcases freeUp_cases j1 hnv with ⟨_, e⟩ | ⟨l1, q, l2, e, ha, hid, _, _, _⟩
+  · exact e
+  · exfalso
+    apply j2
+    rw [e, activeIds_append, activeIds_cons_active q l2 ha, hid]
+    simp
+
+theorem inv_seqr {c : Cfg} {st : St} (hi : Inv c st) {r : Bool} {n : Nat} {b : Body} {fails tries : Nat}
+    (hf : fails < tries) (hb : (activeIds st.hs).length + 1 ≤ limit c) :
+    Inv c (apply c st (.seqr r n b fails tries)).1 ∧ (apply c st (.seqr r n b fails tries)).2.fatal = false := by
+  -- state after the relocation
+  have h0 : Inv c (freeUp c st) ∧ (activeIds (freeUp c st).hs).length = (activeIds st.hs).length := by
+    cases hnv : c.nv with
+    | false => rw [freeUp_generic st hnv]; exact ⟨hi, rfl⟩
+    | true => obtain ⟨j1, _, j3, _⟩ := inv_freeUp hi hnv; exact ⟨j1, j3⟩
+  obtain ⟨hi0, hl0⟩ := h0
+  obtain ⟨st1, d, e1, hd, i1⟩ := inv_loop_sequential hi0 n b (by rw [hl0]; exact hb)
+  simp only [apply, e1]
+  refine ⟨?_, rfl⟩
+  -- the single-attempt invariant, re-read for the retried events
+  have harr : (if c.single = true then List.replicate n 0 else List.replicate n d) = List.replicate n d := by
+    by_cases hs : c.single = true
+    · rw [if_pos hs, hd hs]
+    · rw [if_neg hs]
+  rw [harr]
+  -- evs of st1 are those of the relocated state (createEnt with sequential handles emits nothing)
+  have hev : st1.evs = (freeUp c st).evs ∧ st1.unit = (freeUp c st).unit ∧
+      activeIds (releaseLast n st1.hs) = activeIds (freeUp c st).hs ∧
+      (∀ x ∈ List.replicate n d, x ∉ activeIds (freeUp c st).hs ∧ x < c.maxq) := by
+    have hlim := limit_le c
+    cases hnv : c.nv with
+    | true =>
+      have hfu := freeUp_idem hi hnv
+      obtain ⟨_, j2, _, _⟩ := inv_freeUp hi hnv
+      have hlim1 : limit c = c.maxq - 1 := by unfold limit; simp [hnv]
+      simp only [createEnt, hnv, if_true, hfu, Except.ok.injEq, Prod.mk.injEq] at e1
+      obtain ⟨e1a, e1b⟩ := e1
+      subst e1a
+      have hd0 : d = 0 := by
+        cases n with
+        | zero => exact hd (by simp [Cfg.single, hnv])
+        | succ k => simp [List.replicate_succ] at e1b; exact e1b.1.symm
+      refine ⟨rfl, rfl, ?_, ?_⟩
+      · simp only
+        rw [releaseLast_append _ _ n (by simp)]; exact activeIds_release _ _
+      · intro x hx; rw [mem_replicate_imp hx, hd0]; exact ⟨j2, by omega⟩
+    | false =>
+      have hlim1 : limit c = c.maxq := by unfold limit; simp [hnv]
+      rw [freeUp_generic st hnv] at e1 ⊢
+      simp only [createEnt, hnv, Bool.false_eq_true, if_false, if_true, Except.ok.injEq, Prod.mk.injEq] at e1
+      obtain ⟨e1a, e1b⟩ := e1
+      subst e1a
+      have hv := lowestUnused_not_mem (activeIds st.hs)
+      have hl := lowestUnused_le_length (activeIds st.hs) hi.nodup
+      refine ⟨rfl, rfl, ?_, ?_⟩
+      · simp only
+        rw [releaseLast_append _ _ n (by simp)]; exact activeIds_release _ _
+      · intro x hx
+        cases n with
+        | zero => simp at hx
+        | succ k =>
+          simp [List.replicate_succ] at e1b
+          rw [mem_replicate_imp hx, ← e1b.1]; exact ⟨hv, by omega⟩
+  obtain ⟨hev1, hev2, hev3, hev4⟩ := hev
+  obtain ⟨u, hu, hm⟩ := hi0.runs
+  obtain ⟨u', hu', hq'⟩ := run_retry (m := c.maxq)
+    (fun u => ∀ w, w ∈ u ↔ w ∈ activeIds (freeUp c st).hs) (fun u => ∀ w, w ∈ u ↔ w ∈ activeIds (freeUp c st).hs)
+    ((List.replicate n d).flatMap (fun d => Ev.deliver d :: bodyEvs d b)) []
+    (fun u0 hp => by
+      obtain ⟨u1, h1, m1⟩ := run_bodyLoop (m := c.maxq) b (List.replicate n d) u0
+        (fun x hx => ⟨fun h => (hev4 x hx).1 ((hp x).mp h), (hev4 x hx).2⟩)
+      exact ⟨u1, h1, fun w => (m1 w).trans (hp w)⟩)
+    (fun u0 hq => ⟨u0, rfl, hq⟩) fails u hm
+  rw [retryEvs_success hf]
+  simp only [List.append_nil] at hu'
+  refine ⟨?_, ?_, ?_, ⟨u', ?_, ?_⟩, by simp⟩
+  · simp only [hev3]; exact hi0.nodup
+  · simp only [hev3]; exact hi0.bound
+  · simp only [hev3]; exact hi0.count
+  · simp only [hev2, List.append_nil]; exact run_snoc_ok hu hu'
+  · simp only [hev3]; exact hq'
+
+theorem inv_retry_core {c : Cfg} {st0 : St} (hi0 : Inv c st0) (newIds : List Nat) (attempt : List Ev)
+    (hs1 : List Handle) (hact : activeIds hs1 = activeIds st0.hs ++ newIds)
+    (hnd : (activeIds st0.hs ++ newIds).Nodup) (hbd : ∀ v ∈ newIds, v < c.maxq)
+    (hcount : (activeIds st0.hs).length + newIds.length ≤ limit c)
+    (hatt : ∀ u, (∀ w, w ∈ u ↔ w ∈ activeIds st0.hs) →
+      ∃ u', run c.maxq u attempt = .ok u' ∧ ∀ w, w ∈ u' ↔ w ∈ activeIds st0.hs ∨ w ∈ newIds)
+    (fails tries : Nat) (hf : fails < tries) :
+    Inv c ⟨hs1, st0.evs ++ retryEvs attempt (newIds.map Ev.free) fails tries, none, st0.unit⟩ := by
+  obtain ⟨u, hu, hm⟩ := hi0.runs
+  obtain ⟨hn1, hn2, hn3⟩ := List.nodup_append.mp hnd
+  obtain ⟨u', hu', hq'⟩ := run_retry (m := c.maxq)
+    (fun u => ∀ w, w ∈ u ↔ w ∈ activeIds st0.hs)
+    (fun u => ∀ w, w ∈ u ↔ w ∈ activeIds st0.hs ∨ w ∈ newIds)
+    attempt (newIds.map Ev.free) hatt
+    (fun u0 hq => by
+      obtain ⟨u1, h1, m1⟩ := run_frees (m := c.maxq) newIds u0 hn2
+        (fun d hd => ⟨(hq d).mpr (Or.inr hd), hbd d hd⟩)
+      refine ⟨u1, h1, fun w => ?_⟩
+      rw [m1 w, hq w]
+      constructor
+      · rintro ⟨h | h, hnot⟩
+        · exact h
+        · exact absurd h hnot
+      · intro h; exact ⟨Or.inl h, fun hw => hn3 w h w hw rfl⟩)
+    fails u hm
+  rw [retryEvs_success hf]
+  refine ⟨?_, ?_, ?_, ⟨u', run_snoc_ok hu hu', ?_⟩, by simp⟩
+  · simp only [hact]; exact hnd
+  · simp only [hact]; intro v hv
+    rcases List.mem_append.mp hv with h | h
+    · exact hi0.bound v h
+    · exact hbd v h
+  · simp only [hact, List.length_append]; exact hcount
+  · intro w; simp only [hact, List.mem_append]; exact hq' w
+
+theorem inv_keepr {c : Cfg} {st : St} (hi : Inv c st) {r : Bool} {n fails tries : Nat} (h1 : 1 ≤ n)
+    (hmax : n ≤ c.maxq) (hf : fails < tries) (hb : (activeIds st.hs).length + n ≤ limit c)
+    (hk : c.nv = false ∨ nvKeepOk c st n = true) :
+    Inv c (apply c st (.keepr r n fails tries)).1 ∧
+      (apply c st (.keepr r n fails tries)).2.fatal = false := by
+  have hlim := limit_le c
+  simp only [apply]
+  rw [if_neg (by omega)]
+  cases hnv : c.nv with
+  | false =>
+    rw [freeUp_generic st hnv]
+    obtain ⟨i1, i2, i3, i4, i5, i6, i7⟩ := genEnt_spec n st hi.nodup
+    have hce : createEnt c st n false = .ok (genEnt st n) := by simp [createEnt, hnv]
+    rw [hce]
+    simp only
+    have hloop : (if c.single = true then moveLoop n n else (genEnt st n).2.map Ev.deliver)
+        = (genEnt st n).2.map Ev.deliver := by
+      by_cases hs : c.single = true
+      · rw [if_pos hs]
+        simp only [Cfg.single, hnv, Bool.false_or, beq_iff_eq] at hs
+        have hlim1 : limit c = c.maxq := by unfold limit; simp [hnv]
+        have hn1 : n = 1 := by omega
+        have hl0 : (activeIds st.hs).length = 0 := by omega
+        have he : activeIds st.hs = [] := List.eq_nil_of_length_eq_zero hl0
+        subst hn1
+        simp [moveLoop, genEnt, he, lowestUnused_nil]
+      · rw [if_neg hs]
+    have hhs := genEnt_hs2 n st
+    have hdrop : (genEnt st n).1.evs.drop st.evs.length = [] := by rw [i1]; simp
+    have hcl : ((genEnt st n).1.hs.drop st.hs.length).map (fun h => Ev.free h.id) =
+        (genEnt st n).2.map Ev.free := by
+      rw [hhs, List.drop_left']
+      · simp [Function.comp_def]
+      · rfl
+    rw [hloop, hdrop, hcl, List.nil_append]
+    refine ⟨?_, rfl⟩
+    have key := inv_retry_core hi (genEnt st n).2 ((genEnt st n).2.map Ev.deliver) (genEnt st n).1.hs
+      i4 i5 (fun v hv => by have := i7 v hv; omega) (by rw [i6]; exact hb)
+      (fun u hp => by
+        obtain ⟨hn1, hn2, hn3⟩ := List.nodup_append.mp i5
+        obtain ⟨u1, h1', m1⟩ := run_delivers (m := c.maxq) (genEnt st n).2 u
+          (fun v hv => by have := i7 v hv; omega) hn2
+          (fun v hv hvu => hn3 v ((hp v).mp hvu) v hv rfl)
+        exact ⟨u1, h1', fun w => by rw [m1 w, hp w]⟩)
+      fails tries hf
+    show Inv c ⟨(genEnt st n).1.hs, _, none, (genEnt st n).1.unit⟩
+    rw [i3]; exact key
+  | true =>
+    have hok : nvKeepOk c st n = true := by
+      rcases hk with hk | hk
+      · rw [hnv] at hk; cases hk
+      · exact hk
+    obtain ⟨j1, j2, j3, _⟩ := inv_freeUp hi hnv
+    have hlim1 : limit c = c.maxq - 1 := by unfold limit; simp [hnv]
+    obtain ⟨st', e1, e2, e3, e4⟩ := nvEnt_spec n (freeUp c st) (nvKeepOk_spec hok)
+    have hhs := nvEnt_hs n (freeUp c st) st' (descIds n) e1
+    have hce : createEnt c (freeUp c st) n false = .ok (st', descIds n) := by
+      simp only [createEnt, hnv, if_true, freeUp_idem hi hnv]; exact e1
+    rw [hce]
+    have hs : c.single = true := by simp [Cfg.single, hnv]
+    simp only [hs, if_true]
+    have hdrop : st'.evs.drop (freeUp c st).evs.length = allocEvs n := by
+      rw [e3, List.drop_left']; rfl
+    have hcl : (st'.hs.drop (freeUp c st).hs.length).map (fun h => Ev.free h.id) =
+        (descIds n).map Ev.free := by
+      rw [hhs, List.drop_left']
+      · simp [Function.comp_def]
+      · rfl
+    rw [hdrop, hcl]
+    refine ⟨?_, rfl⟩
+    have hdisj : ∀ a ∈ activeIds (freeUp c st).hs, ∀ b ∈ descIds n, a ≠ b := by
+      intro a ha b hb' e
+      subst e
+      have hb'' := (mem_descIds n a).mp hb'
+      by_cases ha0 : a = 0
+      · subst ha0; exact j2 ha
+      · exact nvKeepOk_spec hok a (by omega) hb'' ha
+    have key := inv_retry_core j1 (descIds n) (allocEvs n ++ moveLoop n n) st'.hs e2
+      (List.nodup_append.mpr ⟨j1.nodup, nodup_descIds n, hdisj⟩)
+      (fun v hv => by have := (mem_descIds n v).mp hv; omega)
+      (by rw [length_descIds, j3]; exact hb)
+      (fun u hp => by
+        have hfree : ∀ k, 1 ≤ k → k < n → k ∉ u ∧ k < c.maxq := fun k hk1 hk2 =>
+          ⟨fun h => nvKeepOk_spec hok k hk1 hk2 ((hp k).mp h), by omega⟩
+        obtain ⟨u2, hu2, hm2⟩ := run_allocEvs n u hfree
+        have h0u2 : (0 : Nat) ∉ u2 := by
+          intro h
+          rcases (hm2 0).mp h with h | h
+          · exact j2 ((hp 0).mp h)
+          · omega
+        obtain ⟨u3, hu3, hm3⟩ := run_moveLoop (m := c.maxq) (n := n) n u2 h1 h0u2 (by omega)
+          (fun j hj1 hj2 => ⟨(hm2 j).mpr (Or.inr ⟨hj1, hj2⟩), by omega⟩)
+        refine ⟨u3, run_snoc_ok hu2 hu3, fun w => ?_⟩
+        rw [hm3 w, hm2 w, hp w, mem_descIds]
+        constructor
+        · rintro (h | h | h)
+          · exact Or.inr (by omega)
+          · exact Or.inl h
+          · exact Or.inr h.2
+        · rintro (h | h)
+          · exact Or.inr (Or.inl h)
+          · by_cases hw0 : w = 0
+            · exact Or.inl hw0
+            · exact Or.inr (Or.inr ⟨by omega, h⟩))
+      fails tries hf
+    show Inv c ⟨st'.hs, _, none, st'.unit⟩
+    rw [e4]; exact key
+
 theorem inv_apply {c : Cfg} {st : St} {op : Op} (hi : Inv c st) (hok : opOk c st op = true) :
     Inv c (apply c st op).1 ∧ (apply c st op).2.fatal = false := by
   cases op with
@@ -1236,6 +1553,12 @@ theorem inv_apply {c : Cfg} {st : St} {op : Op} (hi : Inv c st) (hok : opOk c st
       rcases hok with h | h
       · exact Or.inl h
       · exact Or.inr (Or.inr ⟨rfl, h⟩)
+  | keepr r n fails tries =>
+    simp only [opOk, Bool.and_eq_true, Bool.or_eq_true, decide_eq_true_eq, Bool.not_eq_true'] at hok
+    exact inv_keepr hi hok.1.1.1.1 hok.1.1.1.2 hok.1.1.2 hok.1.2 hok.2
+  | seqr r n b fails tries =>
+    simp only [opOk, Bool.and_eq_true, decide_eq_true_eq] at hok
+    exact inv_seqr hi hok.1 hok.2
   | flush =>
     obtain ⟨i1, i2, _, _⟩ := inv_flush hi
     exact ⟨i1, by simp only [apply]; rw [i2]; rfl⟩
